@@ -1198,7 +1198,26 @@ class SpecMon(Monitor):
     def finish(self, m, st):
         rv = st.done
         if st.run is not None:
-            raise Unanalysable("a result is returned while a measured look-ahead run has not been consumed")
+            # the implementation has measured a run of look-ahead bytes it did not consume: the
+            # reference is fed the bytes in front of the run, then the run is unfolded (ends here /
+            # one more byte of its class) until the reference's control state repeats
+            sim = self.clone()
+            k = 0
+            idx = st.ahead[1]
+            while sim.q[0] not in ("DONE", "ERR") and k < idx:
+                cid = st.tape[k]
+                if sim.pend is not None and sim.q[0] not in ("VE", "WE"):
+                    break
+                lab = sim.classify(m, st, cid)
+                sim.step(m, st, cid, lab, ("B", ((st.cur_tok(), 1),), k), ("B", ((st.cur_tok(), 1),), k + 1))
+                k += 1
+            if k == idx and sim.q[0] not in ("DONE", "ERR"):
+                key = (sim.q, sim.verdict, tuple(sorted(sim.flags.items())), sim.pend is not None)
+                memo = st.flags.get("$runfin", ())
+                if key in memo:
+                    return  # the same reference state with a longer run: already covered
+                st.flags["$runfin"] = memo + (key,)
+                m.unfold_run(st)
         kind, payload = decode_result(m, st, rv, self.kind)
         # feed the look-ahead the implementation has seen but not consumed
         sim = self.clone()
@@ -1229,8 +1248,10 @@ class SpecMon(Monitor):
         else:
             want = sv[0]
         self.check_framing(m, st, kind, payload)
-        if kind == "partial" and not (st.eof and not st.tape):
-            m.violate(st, "partial-with-unread-input", "Partial returned while %s" % ("%d byte(s) already seen are unread" % len(st.tape) if st.tape else "the end of the buffer has not been observed"), fatal=False)
+        if kind == "partial" and not st.eof:
+            # bytes the implementation has looked at without consuming them were fed to the reference
+            # above; bytes it has not looked at at all cannot have been judged by anybody
+            m.violate(st, "partial-with-unread-input", "Partial returned while the end of the buffer has not been observed", fatal=False)
         self.check_headers_field(m, st, kind, payload)
         if kind == "partial":
             if want == "err":
